@@ -619,7 +619,8 @@ def r13(ctx):
             v = fn.nodes[c]
             if v['k'] != 'CXXOperatorCallExpr' or v.get('op') != '<<' or len(v.get('args', [])) != 2:
                 continue
-            a = fn.nodes[fn.strip(v['args'][1], casts=True)]
+            shown = fn.nodes[fn.strip(v['args'][1], casts=True)]
+            a = fn.nodes[fn.def_expr(v['args'][1])]     # a local that holds the key stands for its initialiser
             if a.get('k') != 'MemberExpr' or a.get('name') != 'first':
                 continue
             base = fn.key(a['ch'][0]) if a.get('ch') else ''
@@ -627,7 +628,7 @@ def r13(ctx):
                 continue
             n += 1
             ctx.touch(fn)
-            ok = a.get('w') == 32 and not a.get('sg')
+            ok = a.get('w') == 32 and not a.get('sg') and shown.get('w') == 32 and not shown.get('sg')
             ctx.ob('C19.R13', fn, c, ok, 'key of a value list entry written in %s' % fn.name.split('::', 1)[1],
                    'streamed as unsigned 32 bit: %s (type %s)' % (ok, a.get('t')))
     if n < 1:
